@@ -3,6 +3,10 @@ package checks
 import (
 	"context"
 	"fmt"
+	"github.com/risor-io/risor"
+	"github.com/risor-io/risor/compiler"
+	"github.com/risor-io/risor/object"
+	"github.com/risor-io/risor/parser"
 	"sort"
 	"strings"
 	"time"
@@ -498,7 +502,40 @@ func runC10(rc *fw.RunCtx) {
 		extra[n] = h.Recorder(n)
 	}
 	ctx, cancel := context.WithCancel(context.Background())
-	out := evalTask(s, "main", ctx, prog.Src, baseOpts(extra))
+	// In a fifth of the runs the program is compiled once and evaluated twice,
+	// each time on a fresh VM (a host that caches compiled scripts); the oracles
+	// judge the second evaluation, whose goroutines must be ITS goroutines
+	var out *EvalOutcome
+	twice := g.Chance(1, 5)
+	var outFirst *EvalOutcome
+	if twice {
+		s.MaxSteps *= 2
+		rc.Hit("shape_same_code_on_two_fresh_vms")
+		cfg := risor.NewConfig(baseOpts(extra)...)
+		astT, err := parser.Parse(context.Background(), prog.Src)
+		if err != nil {
+			panic("harness: " + err.Error())
+		}
+		codeT, err := compiler.Compile(astT, cfg.CompilerOpts()...)
+		if err != nil {
+			panic("harness: " + err.Error())
+		}
+		out, outFirst = &EvalOutcome{}, &EvalOutcome{}
+		s.Go("main", "main", func() {
+			guard(outFirst, func() (object.Object, error) { return risor.EvalCode(ctx, codeT, baseOpts(extra)...) })
+			if outFirst.Err != nil || outFirst.Panic != nil {
+				// the first evaluation already failed: report that one
+				out.Result, out.Err, out.Panic = outFirst.Result, outFirst.Err, outFirst.Panic
+				out.Done = true
+				out.done.Store(true)
+				return
+			}
+			h.Reset()
+			guard(out, func() (object.Object, error) { return risor.EvalCode(ctx, codeT, baseOpts(extra)...) })
+		})
+	} else {
+		out = evalTask(s, "main", ctx, prog.Src, baseOpts(extra))
+	}
 	s.Until = func() bool { return out.Done && len(aliveExcept(s, "vm.watcher", "file.watcher")) == 0 }
 	prefix := -1
 	if raceBuild {
